@@ -102,11 +102,13 @@ package base
 // ---- files awaiting write-back are never deleted (properties C10, C31) -----------------------------
 //
 // Delete is the only function of the package that removes an entry's files (os.RemoveAll of its
-// directory). The sink rule: it is reached only when the persist flag could be read and is false,
+// directory; C11: that single RemoveAll of the entry's own directory is its whole file-system
+// frame - fs_effects). The sink rule: it is reached only when the persist flag could be read and is false,
 // or does not exist; if the flag cannot be read the file is kept.
 //@ func localFileEntry.Delete
 //@   requires entry != nil
 //@   modifies *
+//@   fs_effects os.RemoveAll
 //@   assert never_while_persisted: at os.RemoveAll#0 :: !persist.Value
 
 // ---- LRU file map (property C10) ------------------------------------------------------------------
